@@ -115,6 +115,15 @@ class Md:
         return f"Md({self.kind},{self.d})"
 
 
+class Bot:
+    """element abstraction of a sequence that is certainly empty"""
+    __slots__ = ()
+
+    def __repr__(self):
+        return "Bot"
+
+
+BOT = Bot()
 UNIT = Ag(())
 
 
@@ -254,10 +263,11 @@ def _same_proj(x, y):
 
 # ---------------------------------------------------------------------------------------- context
 class Obl:
-    __slots__ = ("kind", "fn", "bb", "ok", "detail", "role", "span", "ctxpath", "assumed")
+    __slots__ = ("kind", "fn", "bb", "ok", "detail", "role", "span", "ctxpath", "assumed", "quiet")
 
-    def __init__(self, kind, fn, bb, ok, detail, role, span, ctxpath, assumed=None):
+    def __init__(self, kind, fn, bb, ok, detail, role, span, ctxpath, assumed=None, quiet=False):
         self.kind, self.fn, self.bb, self.ok, self.detail, self.role, self.span, self.ctxpath, self.assumed = kind, fn, bb, ok, detail, role, span, ctxpath, assumed
+        self.quiet = quiet
 
     def key(self):
         return f"{self.fn}|{self.kind}|{self.role}"
@@ -284,6 +294,8 @@ class Ctx:
         self.steps = 0
         self.log = log
         self.heap_n = 0
+        self.pins = []
+        self.quiet = 0
         self.max_parts = 4
         self.observers = []    # callables (event, **kw)
         self.path_mode_fns = None   # optional predicate(inst) -> bool: try path mode
@@ -409,9 +421,22 @@ class Ctx:
         inst = frame.inst
         reason = self.assume_fns(inst) if self.assume_fns else None
         o = Obl(kind, inst.name, bb, bool(ok), detail, role, frame.body.span_of(bb), [self.prog.inst[i].name for i in self.stack[-4:]],
-                assumed=(reason if not ok else None))
+                assumed=(reason if not ok else None), quiet=self.quiet > 0)
         self.obl.append(o)
         return o
+
+
+class pinned:
+    """keep the vids of model-local temporaries alive across nested analyses (state gc)"""
+
+    def __init__(self, ctx, *vals):
+        self.ctx, self.vals = ctx, [v for v in vals if v is not None]
+
+    def __enter__(self):
+        self.ctx.pins.extend(self.vals)
+
+    def __exit__(self, *a):
+        del self.ctx.pins[len(self.ctx.pins) - len(self.vals):]
 
 
 class Frame:
@@ -507,12 +532,35 @@ def rename_vid(st, old, new):
             st.scale[k] = (m, new)
 
 
-def gc_state(st):
+def rename_bulk(st, m):
+    """rename vids according to dict m (old -> new) everywhere in the state"""
+    if not m:
+        return
+    def f(i):
+        n = m.get(i.vid)
+        return I(n, i.ty) if n is not None else i
+    for k, v in list(st.store.items()):
+        nv = map_value(v, f)
+        if nv is not v:
+            st.store[k] = nv
+    g = lambda x: m.get(x, x)
+    st.itv = {g(k): v for k, v in st.itv.items()}
+    st.facts = {(g(a), g(b)): c for (a, b), c in st.facts.items()}
+    st.prov = {g(k): (p[0], tuple(g(x) for x in p[1]), p[2]) for k, p in st.prov.items()}
+    st.scale = {g(k): (mm, g(b)) for k, (mm, b) in st.scale.items()}
+    st.taint = {g(x) for x in st.taint}
+
+
+def gc_state(st, pins=()):
     """drop intervals/facts of vids no longer referenced from the store (or via prov/scale of live ones)"""
     live = set()
     for v in st.store.values():
         for _, i in iter_ints(v):
             live.add(i.vid)
+    for v in pins:
+        for _, i in iter_ints(v):
+            if i.vid in st.itv:
+                live.add(i.vid)
     # transitive: prov / scale references
     changed = True
     while changed:
@@ -537,11 +585,28 @@ def gc_state(st):
 
 # ------------------------------------------------------------------------------------------- join
 def join_states(ctx, a, b, tag, widen=False, thresholds=()):
+    rel_thresholds = sorted(set(t for t in thresholds if abs(t) <= 4096) | set(-t for t in thresholds if abs(t) <= 4096))
     """join of two states at program point `tag`; vids that differ get deterministic names"""
     out = St()
     out.part = a.part
     pair = {}      # (va, vb) -> target vid
     ma, mb = {}, {}
+    anchors = set()
+
+    pending = {}
+    changed_scalar = [False]
+
+    def fin(t, old, hull, ty, path):
+        lo, hi = hull
+        if widen:
+            is_elem = any(isinstance(p, str) and p in ("elem", "elemh", "head") for p in path)
+            if is_elem:
+                pending[t] = (old, hull, ty)
+            else:
+                if hull != old:
+                    changed_scalar[0] = True
+                lo, hi = widen_itv(old, hull, thresholds, ctx.int_range(ty))
+        out.itv[t] = (lo, hi)
 
     def jint(x, y, path):
         if x.vid == y.vid:
@@ -551,10 +616,7 @@ def join_states(ctx, a, b, tag, widen=False, thresholds=()):
                 pair[key] = t
                 la, ha = a.itv[t]
                 lb, hb = b.itv[t]
-                lo, hi = min(la, lb), max(ha, hb)
-                if widen:
-                    lo, hi = widen_itv((la, ha), (lo, hi), thresholds, ctx.int_range(x.ty))
-                out.itv[t] = (lo, hi)
+                fin(t, (la, ha), (min(la, lb), max(ha, hb)), x.ty, path)
                 ma[t] = t
                 mb[t] = t
                 if t in a.taint or t in b.taint:
@@ -569,10 +631,7 @@ def join_states(ctx, a, b, tag, widen=False, thresholds=()):
             pair[key] = t
             la, ha = a.itv[x.vid]
             lb, hb = b.itv[y.vid]
-            lo, hi = min(la, lb), max(ha, hb)
-            if widen:
-                lo, hi = widen_itv((la, ha), (lo, hi), thresholds, ctx.int_range(x.ty))
-            out.itv[t] = (lo, hi)
+            fin(t, (la, ha), (min(la, lb), max(ha, hb)), x.ty, path)
             ma.setdefault(x.vid, t)
             mb.setdefault(y.vid, t)
             if x.vid in a.taint or y.vid in b.taint:
@@ -580,12 +639,18 @@ def join_states(ctx, a, b, tag, widen=False, thresholds=()):
         return I(t, x.ty)
 
     def jv(x, y, path):
+        if x is BOT and y is BOT:
+            return BOT
         if x is y and type(x) is not I:
             # still need intervals of inner ints
             return map_value(x, lambda i: jint(i, i, path))
         tx, ty_ = type(x), type(y)
         if tx is I and ty_ is I:
             return jint(x, y, path)
+        if tx is Bot:
+            return map_value(y, lambda i: carry(i, b))
+        if ty_ is Bot:
+            return map_value(x, lambda i: carry(i, a))
         if tx is Top:
             return x
         if ty_ is Top:
@@ -619,7 +684,9 @@ def join_states(ctx, a, b, tag, widen=False, thresholds=()):
                     for k, hv in hs.items():
                         if not other or k not in other:
                             elem = jv_loose(elem, hv, src, path + ("elemh", k))
-            return Sq(elem, jv(x.len, y.len, path + ("len",)), head or None, x.data if x.data == y.data else None)
+            ln = jv(x.len, y.len, path + ("len",))
+            anchors.add(ln.vid)
+            return Sq(elem, ln, head or None, x.data if x.data == y.data else None)
         if tx is Pt:
             if x.key == y.key and len(x.proj) == len(y.proj):
                 try:
@@ -645,6 +712,8 @@ def join_states(ctx, a, b, tag, widen=False, thresholds=()):
                 p, q = x.d[k], y.d[k]
                 if isinstance(p, (I, Fl, Ag, En, Sq, Pt, Top, Md)):
                     d[k] = jv(p, q, path + ("m", k))
+                    if k in ("len", "end") and type(d[k]) is I:
+                        anchors.add(d[k].vid)
                 elif p == q:
                     d[k] = p
                 else:
@@ -683,6 +752,14 @@ def join_states(ctx, a, b, tag, widen=False, thresholds=()):
     for k in a.store:
         if k in b.store:
             out.store[k] = jv(a.store[k], b.store[k], (k,))
+    if widen and not changed_scalar[0] and any(old != hull for (old, hull, _) in pending.values()):
+        # staged widening: element abstractions are widened only once the scalars have been stable
+        # for a few rounds
+        cnt = ctx.memo.setdefault("elem_delay", {})
+        cnt[tag] = cnt.get(tag, 0) + 1
+        if cnt[tag] > 3:
+            for t, (old, hull, ty) in pending.items():
+                out.itv[t] = widen_itv(old, hull, thresholds, ctx.int_range(ty))
     # facts: keep those provable on both sides (using intervals as fallback)
     inv_a, inv_b = {}, {}
     for s, t in ma.items():
@@ -696,6 +773,15 @@ def join_states(ctx, a, b, tag, widen=False, thresholds=()):
     for (x, y) in b.facts:
         if x in mb and y in mb:
             cand.add((mb[x], mb[y]))
+    # relations to length-like symbols that were only implicit in the intervals must survive a join
+    # that loosens the interval
+    for key, t in pair.items():
+        if key[0] == key[1]:
+            if not widen or out.itv[t] == a.itv[t]:
+                continue
+        for s_ in anchors:
+            if s_ != t:
+                cand.add((t, s_))
     for (tx_, ty_) in cand:
         if tx_ == ty_:
             continue
@@ -708,14 +794,13 @@ def join_states(ctx, a, b, tag, widen=False, thresholds=()):
             continue
         c = max(ca, cb)
         if widen:
-            old = a.facts.get((xa, ya))
+            old = a.bound(xa, ya) if xa != ya else 0
             if old is None or c > old:
-                # unstable relational bound: drop (zone widening), unless interval-implied
-                continue
-        lo_y = out.itv[ty_][0]
-        hi_x = out.itv[tx_][1]
-        if hi_x != INF and lo_y != -INF and hi_x - lo_y <= c:
-            continue  # implied by intervals
+                # unstable relational bound: widen to the next threshold, or drop
+                cands = [t for t in rel_thresholds if t >= c]
+                if not cands:
+                    continue
+                c = min(cands)
         out.facts[(tx_, ty_)] = c
     # scale relations and provenance survive only if identical on both sides
     for v, (m, base) in a.scale.items():
@@ -723,8 +808,17 @@ def join_states(ctx, a, b, tag, widen=False, thresholds=()):
             sb = b.scale.get(inv_b[ma[v]])
             if sb and sb[0] == m and mb.get(sb[1]) == ma[base]:
                 out.scale[ma[v]] = (m, ma[base])
+    def unchanged(x):
+        if ma.get(x) == x and mb.get(x) == x:
+            return True
+        if x not in ma and x not in mb and x in a.itv and x in b.itv and a.itv[x] == b.itv[x] and x not in out.itv:
+            out.itv[x] = a.itv[x]
+            ma[x] = x
+            mb[x] = x
+            return True
+        return False
     for v, p in a.prov.items():
-        if ma.get(v) == v and mb.get(v) == v and b.prov.get(v) == p and all(ma.get(x) == x and mb.get(x) == x for x in p[1]):
+        if ma.get(v) == v and mb.get(v) == v and b.prov.get(v) == p and all(unchanged(x) for x in p[1]):
             out.prov[v] = p
     return out
 
@@ -732,11 +826,13 @@ def join_states(ctx, a, b, tag, widen=False, thresholds=()):
 def widen_itv(old, new, thresholds, tyrange):
     lo, hi = new
     if lo < old[0]:
-        cands = [t for t in thresholds if t <= lo]
+        want = lo - 2 * (old[0] - lo) if lo < 0 else lo
+        cands = [t for t in thresholds if t <= want]
         lo = max(cands) if cands else tyrange[0]
         lo = max(lo, tyrange[0])
     if hi > old[1]:
-        cands = [t for t in thresholds if t >= hi]
+        want = hi + 2 * (hi - old[1]) if hi > 0 else hi
+        cands = [t for t in thresholds if t >= want]
         hi = min(cands) if cands else tyrange[1]
         hi = min(hi, tyrange[1])
     return lo, hi
